@@ -1233,7 +1233,7 @@ theorem planHistory_avx_total_aux (ty : ElemTy) (avx2 : Bool) : ∀ (reqs : List
 
 /-! ### uniqueness of well-formed factorisations -/
 
-theorem prime_dvd_prodOf {p : Nat} (hp : Nat.Prime p) : ∀ (l : List PrimeFactor), GoodEntries l → p ∣ prodOf l →
+theorem prime_dvd_prodOf_entries {p : Nat} (hp : Nat.Prime p) : ∀ (l : List PrimeFactor), GoodEntries l → p ∣ prodOf l →
     ∃ x ∈ l, x.value = p := by
   intro l
   induction l with
@@ -1251,7 +1251,7 @@ theorem prime_dvd_prodOf {p : Nat} (hp : Nat.Prime p) : ∀ (l : List PrimeFacto
 theorem head_not_dvd_tail {x : PrimeFactor} {l : List PrimeFactor} (hg : GoodEntries (x :: l))
     (hs : (x :: l).Pairwise (fun a b => a.value < b.value)) : ¬ x.value ∣ prodOf l := by
   intro hd
-  obtain ⟨y, hy, hv⟩ := prime_dvd_prodOf (hg x (List.mem_cons_self ..)).2.2 l hg.tail hd
+  obtain ⟨y, hy, hv⟩ := prime_dvd_prodOf_entries (hg x (List.mem_cons_self ..)).2.2 l hg.tail hd
   have := (List.pairwise_cons.1 hs).1 y hy
   omega
 
@@ -1275,13 +1275,13 @@ theorem prodOf_inj : ∀ (l₁ l₂ : List PrimeFactor), GoodEntries l₁ → Go
       have hx := hg1 x (List.mem_cons_self ..)
       have hy := hg2 y (List.mem_cons_self ..)
       have hle1 : y.value ≤ x.value := by
-        obtain ⟨z, hz, hv⟩ := prime_dvd_prodOf hx.2.2 (y :: t₂) hg2
+        obtain ⟨z, hz, hv⟩ := prime_dvd_prodOf_entries hx.2.2 (y :: t₂) hg2
           (he ▸ (by rw [prodOf_cons]; exact Dvd.dvd.mul_right (dvd_pow_self _ (by omega)) _))
         rcases List.mem_cons.1 hz with rfl | hz
         · omega
         · have := (List.pairwise_cons.1 hs2).1 z hz; omega
       have hle2 : x.value ≤ y.value := by
-        obtain ⟨z, hz, hv⟩ := prime_dvd_prodOf hy.2.2 (x :: t₁) hg1
+        obtain ⟨z, hz, hv⟩ := prime_dvd_prodOf_entries hy.2.2 (x :: t₁) hg1
           (he ▸ (by rw [prodOf_cons]; exact Dvd.dvd.mul_right (dvd_pow_self _ (by omega)) _))
         rcases List.mem_cons.1 hz with rfl | hz
         · omega
@@ -1303,7 +1303,7 @@ theorem prodOf_inj : ∀ (l₁ l₂ : List PrimeFactor), GoodEntries l₁ → Go
 
 theorem not_three_dvd_prodOf (l : List PrimeFactor) (hg : GoodEntries l) : ¬ 3 ∣ prodOf l := by
   intro hd
-  obtain ⟨x, hx, hv⟩ := prime_dvd_prodOf Nat.prime_three l hg hd
+  obtain ⟨x, hx, hv⟩ := prime_dvd_prodOf_entries Nat.prime_three l hg hd
   have := (hg x hx).2.1
   omega
 
